@@ -609,6 +609,8 @@ def check_mutated(case, ctx):
             f"witness={tin.witness!r}"[:600])
     # the same unauthorised spend with a true value slipped UNDER everything else on the initial stack: a
     # signature check that fails without leaving its verdict on the stack would now end on that value
+    if mut == "truncate_witness":
+        return  # the added bottom item would take the place of the removed CHECKMULTISIG dummy: a complete spend
     if typ in ("p2pkh", "p2pkh_uncompressed", "p2sh_multisig"):
         tin.script_sig = Script([b"\x01"] + list(tin.script_sig.commands))
     elif typ in SEGWIT and typ not in ("p2tr_key", "p2tr_key_root"):
